@@ -1667,6 +1667,11 @@ const FAMILIES: &[Family] = &[
     Family { name: "scenario", presets: &["buggify", "plain"], ops: 120, modelled: false, quick_presets: 1 },
 ];
 
+/// is the family run by part B, and is its trace predicted by a Lean model?
+pub fn family_modelled(name: &str) -> Option<bool> {
+    FAMILIES.iter().find(|f| f.name == name).map(|f| f.modelled)
+}
+
 fn part_b(a: &Args, out: &mut Out) {
     let thorough = a.tier == "thorough";
     let k_children = if thorough { 5 } else { 3 };
@@ -1805,6 +1810,7 @@ pub fn run(a: &Args) {
     // `gen_bool(NaN)` panics by design of rand's Bernoulli; the answer line says `crash`
     std::panic::set_hook(Box::new(|_| {}));
     let mut out = Out::new(&a.out);
+    crate::c20_src::report(&mut out);
     part_b(a, &mut out);
     buggify::set_config(FaultConfig::default());
     let n = out.n_ops() + a.n as usize;
